@@ -134,6 +134,7 @@ type Interp struct {
 	evalMemo       map[*Term]*Term
 	allVars        []*Term
 	NoModelGuide   bool
+	SharedWrites   []string
 	InitNotes      []string
 	HashUF         bool
 	factMap        map[string]bool
